@@ -114,6 +114,7 @@ func (s *Sim) checkReconcile(rec *Reconcile) {
 	s.checkRevisions(v)
 	s.checkTruncation(v)
 	s.checkSwallowed(v)
+	s.checkMigrationReconcile(v)
 }
 
 func panicSite(stack string) string {
